@@ -50,7 +50,10 @@ def gen_case(rng, n=8):
         req2 = sorted(set(req1) | set(rng.sample(range(n), 2)))
     b1 = rng.choice(['serial', 'serial', 'fork', 'fork', 'fork', 'spawn'] if rng.random() < 0.25 else ['serial', 'fork'])
     b2 = rng.choice([b for b in ('serial', 'fork') if b != b1] + (['spawn'] if rng.random() < 0.05 else []))
-    return dict(ty=ty, ca=['p', 'o', 'p'], deps=deps, fl=fl, storage='local',
+    # free-text parameters: non-ASCII, astral, and a lone surrogate as produced by os.fsdecode(b'caf\xe9')
+    labels = [rng.choice(['', 'plain', 'é', 'Zürich — naïve', '日本語', '😀 x', os.fsdecode(b'caf\xe9'), 'a\u0000b'])
+              for _ in range(n)]
+    return dict(ty=ty, ca=['p', 'o', 'p'], deps=deps, fl=fl, storage='local', labels=labels,
                 ops=[['R', 0, 1, req1], ['R', 0, 2, req2]], b1=b1, b2=b2)
 
 
@@ -106,7 +109,9 @@ def first_main(spec_path, out_path):
             execd = sorted(int(l[1]) for l in lines if l[0] == 'X')
             metas = {o.k: [enc_dt(o.result_meta.start), enc_td(o.result_meta.duration)]
                      for o in objs if o.result_meta is not None and o.k in execd}
-            out.append(dict(case=case, dir=d, ret1={t.k: v for t, v in r.items()}, exec1=execd, metas1=metas,
+            import locale
+            out.append(dict(case=case, dir=d, enc1=locale.getpreferredencoding(False),
+                            ret1={t.k: v for t, v in r.items()}, exec1=execd, metas1=metas,
                             cached1=sorted(o.k for o in objs if lab.is_cached(o))))
         except BaseException:
             import traceback
@@ -153,7 +158,9 @@ def second_main(spec_path, out_path):
             loaded = {int(l[1]): (int(l[2]) if l[2].lstrip('-').isdigit() else l[2]) for l in lines if l[0] == 'L'}
             metas = {o.k: [enc_dt(o.result_meta.start), enc_td(o.result_meta.duration)]
                      for o in objs if o.result_meta is not None}
-            out.append(dict(rec, hashseed=os.environ.get('PYTHONHASHSEED'), cached2=cached2,
+            import locale
+            out.append(dict(rec, hashseed=os.environ.get('PYTHONHASHSEED'), enc2=locale.getpreferredencoding(False),
+                            cached2=cached2,
                             ret2={t.k: v for t, v in r.items()}, exec2=execd, loaded2=loaded, metas2=metas))
         except BaseException:
             import traceback
@@ -175,7 +182,15 @@ def second_main(spec_path, out_path):
     json.dump(dict(records=out, metaB=metaB), open(out_path, 'w'), default=str)
 
 
-def run_phase(flag, payloads, timeout, seed_base):
+LOCALES = {
+    # what the interpreter's text encoding is: files opened without an explicit encoding use it
+    'utf8': dict(LC_ALL='C.UTF-8', LANG='C.UTF-8', PYTHONUTF8='0', PYTHONCOERCECLOCALE='0'),
+    'c': dict(LC_ALL='C', LANG='C', PYTHONUTF8='0', PYTHONCOERCECLOCALE='0'),   # legacy locale: ASCII
+}
+LOCALE_PAIRS = [('utf8', 'c'), ('c', 'utf8'), ('utf8', 'utf8')]
+
+
+def run_phase(flag, payloads, timeout, seed_base, locs=None):
     tmp = tempfile.mkdtemp(prefix='verif-c06w-')
     try:
         procs = []
@@ -185,6 +200,8 @@ def run_phase(flag, payloads, timeout, seed_base):
             lf = open(lp, 'w')
             env = dict(os.environ, PYTHONPATH=HERE + os.pathsep + os.environ.get('VERIF_REPO', '/repo'),
                        PYTHONHASHSEED=str(seed_base + i))
+            if locs:
+                env.update(LOCALES[locs[i]])
             procs.append((subprocess.Popen([sys.executable, os.path.abspath(__file__), flag, sp, op],
                                            stdout=lf, stderr=lf, stdin=subprocess.DEVNULL,
                                            start_new_session=True, env=env), op, lp, lf))
@@ -216,8 +233,15 @@ def explore(cases, metas, workers, timeout):
     try:
         chunks = [ch for ch in (cases[i::workers] for i in range(workers)) if ch]
         pl = [dict(cases=ch, root=root, metas=(metas if i == 0 else [])) for i, ch in enumerate(chunks)]
-        o1, e1 = run_phase('--first', pl, timeout, 100)
-        o2, e2 = run_phase('--second', [dict(records=o['records'], metaB=o['metaB']) for o in o1], timeout, 7000)
+        pairs = [tuple(ch[0]['locales']) if ch[0].get('locales') else LOCALE_PAIRS[i % len(LOCALE_PAIRS)]
+                 for i, ch in enumerate(chunks)]
+        o1, e1 = run_phase('--first', pl, timeout, 100, [p[0] for p in pairs])
+        for o, pr in zip(o1, pairs):
+            for r in o['records']:
+                r['locales'] = list(pr)
+                r['case']['locales'] = list(pr)      # a replay re-runs under the same two text encodings
+        o2, e2 = run_phase('--second', [dict(records=o['records'], metaB=o['metaB']) for o in o1], timeout, 7000,
+                           [p[1] for p in pairs])
         return [r for o in o2 for r in o['records']], [m for o in o2 for m in o['metaB']], e1 + e2
     finally:
         shutil.rmtree(root, ignore_errors=True)
@@ -287,7 +311,7 @@ def evaluate(recs, metaB):
         if [m1, m2] != real:
             disagreements.append(dict(case=r['case'], real=real, model=[m1, m2], line=ml))
         for what in monitor(r):
-            violations.append(dict(what=what + f" (first run: {r['case']['b1']}, second run in a fresh interpreter: {r['case']['b2']})",
+            violations.append(dict(what=what + f" (first run: {r['case']['b1']}, text encoding {r.get('enc1')}; second run in a fresh interpreter: {r['case']['b2']}, text encoding {r.get('enc2')})",
                                    replay=dict(kind='two-runs', case=r['case'], real=real, model=[m1, m2])))
     for m in metaB:
         if m['saved'][0] is None or m['saved'][1] is None:
@@ -356,7 +380,10 @@ def run(ctx):
         recs += recs2
     nontrivial = [r for r in recs if r['loaded2']]
     dist = dict(
-        histories=len(recs), backend_pairs={}, meta_round_trips=len(metaB), **xbox['dist'],
+        histories=len(recs), backend_pairs={},
+        text_encoding_first_to_second_interpreter={},
+        histories_with_non_ascii_parameter=sum(1 for r in recs if any(ord(ch) > 127 for l in r['case'].get('labels', []) for ch in l)),
+        histories_with_lone_surrogate_parameter=sum(1 for r in recs if any(0xD800 <= ord(ch) <= 0xDFFF for l in r['case'].get('labels', []) for ch in l)), meta_round_trips=len(metaB), **xbox['dist'],
         observation_none_start_or_duration=sorted({str(m['got'][0])[:70] for m in metaB
                                                    if (m['saved'][0] is None or m['saved'][1] is None)}),
         second_run_hash_seeds=sorted({r.get('hashseed') for r in recs})[:20],
@@ -368,10 +395,12 @@ def run(ctx):
     for r in recs:
         k = r['case']['b1'] + '->' + r['case']['b2']
         dist['backend_pairs'][k] = dist['backend_pairs'].get(k, 0) + 1
+        e = f"{r.get('enc1')}->{r.get('enc2')}"
+        dist['text_encoding_first_to_second_interpreter'][e] = dist['text_encoding_first_to_second_interpreter'].get(e, 0) + 1
     return dict(
         evaluations=len(recs) + len(metaB) + xbox['evaluations'],
         distinct_nontrivial=len({json.dumps(r['case'], sort_keys=True) for r in nontrivial}) + xbox['nontrivial'],
-        rule='generated two-run histories (8 tasks with dependencies over 3 types / 2 cache classes, first run serial|fork|spawn, second run in a fresh interpreter with another PYTHONHASHSEED and another backend, second request equal / different / superset) + save/load round trips of generated start/duration pairs; + sequences of ==-equal-but-differently-typed (confusable) tasks constructed and run one after the other in one process, re-checked in a fresh interpreter + a generated __main__ script (task classes defined in the script) run twice with spawn first / spawn second; non-trivial = the second run served at least one task from the cache',
+        rule='generated two-run histories (8 tasks with dependencies over 3 types / 2 cache classes, first run serial|fork|spawn, second run in a fresh interpreter with another PYTHONHASHSEED and another backend, second request equal / different / superset; free-text parameters with non-ASCII / astral / lone-surrogate / NUL characters; text encodings of the two interpreters UTF-8->ASCII (legacy C locale), ASCII->UTF-8, UTF-8->UTF-8) + save/load round trips of generated start/duration pairs; + sequences of ==-equal-but-differently-typed (confusable) tasks constructed and run one after the other in one process, re-checked in a fresh interpreter + a generated __main__ script (task classes defined in the script) run twice with spawn first / spawn second; non-trivial = the second run served at least one task from the cache',
         samples=[dict(case=r['case'], real=r['real']) for r in nontrivial[:2]] + xbox['samples'],
         violations=viol[:5], disagreements=dis[:5], distribution=dist,
         assumptions=['distinct tasks have distinct cache keys (C07; the recorded finding F07 is outside this universe)',
